@@ -1012,12 +1012,14 @@ def flatten(x:Tensor, start_dim:int=0, end_dim:int=-1) -> 'Tensor':
         raise TypeError(f"Expected x to be a Tensor but got {type(x)}")
     
     shape = x.shape
-    start = start_dim if start_dim != -1 else len(shape)
-    end = end_dim if end_dim != -1 else len(shape)
+    ndim = len(shape) if len(shape) > 0 else 1
+    if not (-ndim <= start_dim < ndim and -ndim <= end_dim < ndim):
+        raise IndexError(f"Dimension out of range for tensor with {len(shape)} dimensions: ({start_dim}, {end_dim})")
+    start = start_dim % ndim
+    end = end_dim % ndim
     if start > end:
         raise RuntimeError("flatten() has invalid args: start_dim cannot come after end_dim")
-    if start < end:
-        shape = shape[:start] + (-1,) + shape[end+1:]
+    shape = shape[:start] + (-1,) + shape[end+1:]
     
     if x.device == Device.CPU:
         out_data = cpu_ops.reshape_forward(x.data, shape)
